@@ -40,6 +40,9 @@ FUNCS = {
               body=[{"k": "expr", "e": {"k": "inc", "pre": False, "d": 1, "lhs": V("a")}}], calls=[]),
     "w": dict(c="void w(char x) { c = x; }", params=[("w_x", 8)],
               body=[{"k": "expr", "e": {"k": "asg", "op": "=", "lhs": V("c"), "e": V("w_x")}}], calls=[]),
+    # parameter spelled like the global a: it shadows the global inside the function
+    "shd": dict(c="char shd(char a) { a = a + 1; return a; }", params=[("shd_a", 8)],
+                body=[{"k": "expr", "e": {"k": "asg", "op": "=", "lhs": V("shd_a"), "e": {"k": "bin", "op": "+", "l": V("shd_a"), "r": N(1)}}}, {"k": "return", "e": V("shd_a")}], calls=[]),
     "z0": dict(c="void z0() { Y = 0; }", params=[], body=[{"k": "expr", "e": {"k": "asg", "op": "=", "lhs": V("Y"), "e": N(0)}}], calls=[]),
     "m2": dict(c="char m2(char x) { if (x < 4) return f(x); return x; }", params=[("m2_x", 8)],
                body=[{"k": "if", "c": {"k": "bin", "op": "<", "l": V("m2_x"), "r": N(4)},
